@@ -352,33 +352,28 @@ def save_requires(s):
 # ---- node -> terms -------------------------------------------------------------------------------
 
 
+ZJ = SV("zarr.json")
+
+
 def zip_loadable(s, zf):
-    """A readable archive that contains the root `zarr.json` of a group carrying the `_autoserialize` attribute."""
+    """A readable archive that contains a root `zarr.json`, staged from a group carrying the `_autoserialize` attribute."""
     if not zf.valid:
         return z3.BoolVal(False)
-    alts = []
-    i = z3.Int("i!zl")
-    for wk in s.world.walks:
-        if wk.group is None:
-            continue
-        zj = SV("zarr.json")
-        alts.append(AND(group_loadable(wk.group),
-                        z3.Exists([i], AND(i >= 0, i < zf.count, z3.Select(zf.arc, i) == zj, z3.Select(zf.src, i) == M.JOIN(wk.top, zj)))))
-    return OR(*alts) if alts else z3.BoolVal(False)
+    marker = OR(*[group_loadable(g) for g in s.world.roots]) if s.world.roots else z3.BoolVal(False)
+    return AND(z3.Select(zf.names, ZJ), marker)
 
 
 def zip_complete(s, zf):
+    """Readable, holds exactly the files of the enumerated tree under their relative names, the tree is a complete group
+    and was not modified after it was enumerated."""
     if not zf.valid:
         return z3.BoolVal(False)
     alts = []
-    i = z3.Int("i!zc")
     for wk in s.world.walks:
         g = wk.group
-        if g is None or g.stamp != wk.stamp:
-            continue  # no group tree under the walked directory, or the tree was modified after it was enumerated
-        alts.append(AND(group_complete(g, s.items, set(), ()), zf.count == wk.total(),
-                        forall(i, implies(AND(i >= 0, i < zf.count),
-                                          AND(z3.Select(zf.src, i) == wk.FLAT(i), z3.Select(zf.arc, i) == M.REL(wk.FLAT(i), wk.top))))))
+        if g is None or g.stamp != wk.stamp or getattr(zf, "expect_walk", None) is not wk:
+            continue  # no group tree under the walked directory / modified after enumeration / archive not compared with it
+        alts.append(AND(group_complete(g, s.items, set(), ()), zf.count == wk.total(), zf.conforms))
     return OR(*alts) if alts else z3.BoolVal(False)
 
 
@@ -495,26 +490,32 @@ def walk_of(s):
     return w[-1]
 
 
-def entries_ok(zf, wk):
-    i = z3.Int("i!e")
-    return forall(i, implies(AND(i >= 0, i < zf.count),
-                             AND(z3.Select(zf.src, i) == wk.FLAT(i), z3.Select(zf.arc, i) == M.REL(wk.FLAT(i), wk.top))))
+def bind_expectation(zf, wk):
+    """What the archive is supposed to contain: entry i = the i-th enumerated file under its name relative to the walked root."""
+    if zf.expect is None:
+        zf.set_expectation(lambda i: (wk.FLAT(i), M.REL(wk.FLAT(i), wk.top)))
+        zf.expect_walk = wk
+
+
+def zip_common_inv(zf, wk):
+    return [("every-entry-written-so-far-is-the-enumerated-file-under-its-relative-name", zf.conforms),
+            ("root-metadata-file-is-in-the-archive-once-passed", implies(zf.count > wk.meta, z3.Select(zf.names, ZJ)))]
 
 
 def save_outer_inv(s):
     zf, wk = zip_of(s), walk_of(s)
-    return [("archive-holds-the-files-of-the-first-k-directories", zf.count == wk.PRE(lift(s.k))),
-            ("entries-are-the-enumerated-files-under-their-relative-names", entries_ok(zf, wk))]
+    bind_expectation(zf, wk)
+    return [("archive-holds-the-files-of-the-first-k-directories", zf.count == wk.PRE(lift(s.k)))] + zip_common_inv(zf, wk)
 
 
 def save_inner_inv(s):
     zf, wk = zip_of(s), walk_of(s)
+    bind_expectation(zf, wk)
     lk = s.interp.loop_k
     if not lk:
         raise V.OutOfSubset("inner zip loop outside the directory loop")
     ko = lift(lk[-1][1])
-    return [("archive-holds-previous-directories-plus-j-files", zf.count == wk.PRE(ko) + lift(s.k)),
-            ("entries-are-the-enumerated-files-under-their-relative-names", entries_ok(zf, wk))]
+    return [("archive-holds-previous-directories-plus-j-files", zf.count == wk.PRE(ko) + lift(s.k))] + zip_common_inv(zf, wk)
 
 
 def havoc_zip(s):
@@ -846,7 +847,9 @@ def rt_save(inp):
                 with open(os.path.join(target, "keep.txt"), "w") as f:
                     f.write("keep")
             elif pre == "saved":
-                old_obj.save(target, store="zip" if target.endswith(".zip") else "dir")
+                staged = os.path.join(base, "earlier.zip" if target.endswith(".zip") else "earlier")
+                old_obj.save(staged)  # an earlier successful save, moved to the target path
+                os.rename(staged, target)
         for x in os.listdir(ptmp):
             shutil.rmtree(os.path.join(ptmp, x), ignore_errors=True)
         existed = os.path.lexists(target)
